@@ -340,13 +340,15 @@ def compare(pid, stage, ops, impl, model):
             out.append(dict(sess_first, whole_session_order=True))
         sess_i, sess_m, sess_first, sess_flagged = [], [], None, False
 
-    for o, a, b in zip(ops, impl, model):
+    sess_start = 0
+    for idx, (o, a, b) in enumerate(zip(ops, impl, model)):
         if not o:
             continue
         toks = o.split(" ", 2)
         sessioned = sessioned_all or (session_ops is not None and len(toks) > 1 and toks[1] in session_ops)
         if sessioned and " reset" in o[:16]:
             close_session()
+            sess_start = idx
             diverged = False
             m = _re.search(r"session=(\d+)", o)
             cur_session = int(m.group(1)) if m else None
@@ -365,7 +367,10 @@ def compare(pid, stage, ops, impl, model):
             if differs(pid, a, b):
                 diverged = True
                 sess_flagged = True
-                out.append({"op": o, "impl": a, "model": b, "session_op": True, "session": cur_session, "stage": stage["name"]})
+                # the history that leads to the failing line (the session from its reset on; long lines shortened)
+                hist = [x if len(x) <= 240 else x[:240] + "…" for x in ops[sess_start:idx + 1] if x][-120:]
+                out.append({"op": o, "impl": a, "model": b, "session_op": True, "session": cur_session, "stage": stage["name"],
+                            "session_ops": hist})
             else:
                 other += 1
         elif pid == "C18" and " kqstate " in o[:24]:
